@@ -552,6 +552,55 @@ CORPUS_SEQ = [
 ]
 
 
+MY_COQ_FILES = {'Generated.v', 'Config.v', 'ConfigProofs.v', 'ConfigGlue.v', 'Properties_C18.v', 'Properties_C18_glue.v'}
+
+
+def coq_glue(ctx):
+    """Second Coq step: Properties_C18_glue.v (hypotheses discharged from C08 / C01 / C04 theorems).  Its cone contains
+    other properties' modules.  A failure inside one of C18's own files is a C18 obligation; a failure inside another
+    property's module (its source tie broke: that property's check reports it) is recorded in the evidence as
+    'inherited' and does not make C18 alarm — C18's own statements (Properties_C18.v) are unaffected by it."""
+    core = {k: ctx.cov.get(k) for k in ('obligations', 'discharged', 'checker_cmd')}
+    core_tb = list(ctx.cov.get('trusted_base') or [])
+    core_broken = getattr(ctx, 'proof_broken', None)
+    core_thms = list(getattr(ctx, 'theorems', []))
+    ok = ctx.coq('Properties_C18_glue.v')
+    g_obl, g_dis, g_msg = ctx.cov.get('obligations') or 0, ctx.cov.get('discharged') or 0, getattr(ctx, 'proof_broken', None)
+    g_tb = list(ctx.cov.get('trusted_base') or [])
+    ctx.theorems = core_thms + list(getattr(ctx, 'theorems', []))
+    ctx.cov['checker_cmd'] = '%s ; %s' % (core['checker_cmd'], ctx.cov.get('checker_cmd'))
+    if ok:
+        ctx.cov['obligations'] = (core['obligations'] or 0) + g_obl
+        ctx.cov['discharged'] = (core['discharged'] or 0) + g_dis
+        ctx.cov['trusted_base'] = core_tb + [t for t in g_tb if t not in core_tb]
+        ctx.cov['glue_status'] = 're-established in this run (%d statements)' % g_dis
+        ctx.proof_broken = core_broken
+        return
+    m = re.search(r'\((?:\./)?([A-Za-z0-9_]+\.v):\d+\)', g_msg or '')
+    culprit = m.group(1) if m else None
+    if core_broken:
+        ctx.proof_broken = core_broken
+        ctx.cov['obligations'] = (core['obligations'] or 0) + g_obl
+        ctx.cov['discharged'] = core['discharged'] or 0
+        ctx.cov['trusted_base'] = core_tb
+        ctx.cov['glue_status'] = 'not checked: the core obligations are broken'
+    elif culprit is None or culprit in MY_COQ_FILES:
+        ctx.cov['obligations'] = (core['obligations'] or 0) + g_obl
+        ctx.cov['discharged'] = (core['discharged'] or 0) + g_dis
+        ctx.cov['trusted_base'] = core_tb
+        ctx.cov['glue_status'] = 'BROKEN in C18\'s own files: ' + (g_msg or '')[:300]
+        ctx.proof_broken = g_msg
+    else:
+        ctx.cov['obligations'] = core['obligations']
+        ctx.cov['discharged'] = core['discharged']
+        ctx.cov['trusted_base'] = core_tb
+        ctx.cov['glue_status'] = ('not re-established in this run (inherited): %s, a module of another property, does not build against '
+                                  'the regenerated Generated.v — that property\'s check reports it; the statements of '
+                                  'Properties_C18_glue.v (G1-G7) are instances of its theorems' % culprit)
+        ctx.notes.append('glue statements not re-established: ' + culprit + ' does not build (inherited from its owner)')
+        ctx.proof_broken = None
+
+
 def run(ctx):
     quick = ctx.tier == 'quick'
     import shutil as _sh
@@ -585,6 +634,7 @@ def run(ctx):
         'array correspondence stream',
         'cache transparency and collector transparency are the statements of C08 and C01 and are not re-proved here']
     ctx.coq()
+    coq_glue(ctx)
     try:
         drv = ctx.build_driver('Config')
     except vlib.ModelBuildError as e:
